@@ -471,7 +471,22 @@ func (x *Exec) assign(st *State, fr *Frame, s *ast.AssignStmt) {
 		return
 	}
 	var vals []Term
-	if len(s.Rhs) == 1 && len(s.Lhs) > 1 {
+	if u, ok := ast.Unparen(s.Rhs[0]).(*ast.UnaryExpr); ok && len(s.Rhs) == 1 && len(s.Lhs) == 2 && u.Op == token.ARROW {
+		// v, ok := <-ch
+		ch := x.expr(st, fr, u.X)
+		got := false
+		x.chanRecv(st, fr, ch, u, func(s2 *State, v Term, okT Term) {
+			if !got {
+				*st = *s2
+				got = true
+				okT.Ty = types.Typ[types.Bool]
+				vals = []Term{v, okT}
+			}
+		})
+		if !got {
+			return
+		}
+	} else if len(s.Rhs) == 1 && len(s.Lhs) > 1 {
 		vals = x.exprs(st, fr, s.Rhs[0])
 		if len(vals) != len(s.Lhs) {
 			x.unsupported(s, "assignment arity: %d values for %d targets", len(vals), len(s.Lhs))
@@ -520,6 +535,10 @@ func (x *Exec) store(st *State, fr *Frame, l ast.Expr, v Term) {
 			return
 		}
 		p := x.expr(st, fr, l.X)
+		if p.Loc != nil {
+			x.unsafeStore(st, p.Loc, v, l)
+			return
+		}
 		x.nilCheck(st, p, l)
 		x.storeCell(st, p, v)
 	default:
